@@ -85,7 +85,7 @@ def shards(tier):
 
 def floors(tier):
     f = {"cases": 8000, "validator_for_checked": 8000, "validate_checked": 8000, "explicit_cls_checked": 2000, "cli_checked": 100, "cli_explicit_validator_checked": 50, "cli_several_instances_checked": 40,
-         "warnings_checked": 1000, "histories_with_registrations": 30, "registrations": 80, "registrations_under_odd_version_names": 40, "registrations_after_replacing_the_metaschema": 30, "distinguished_pairs": 6,
+         "warnings_checked": 1000, "histories_with_registrations": 30, "registrations": 80, "registrations_under_odd_version_names": 40, "registrations_after_replacing_the_metaschema": 25, "registrations_through_versioned_extend": 12, "distinguished_pairs": 6,
          "model_confirms_disagreement": 6, "missing_dollar_schema_in_dict_subclass": 500, "non_dict_mapping_schemas": 3000}
     for s in ("exact#", "exact", "unknown-uri", "non-uri", "missing", "boolean-schema"):
         f["spelling:" + s] = 200
@@ -420,6 +420,12 @@ def run_history(rec, ops, seed, scratch):
             if op["how"] == "create_version":
                 C = validators.create(meta_schema=meta, validators=base.VALIDATORS, version=vname,
                                       type_checker=base.TYPE_CHECKER, id_of=base.ID_OF)
+            elif op["how"] == "extend_version":
+                # an unregistered class with a metaschema of its own, then a VERSIONED extension of it: the extension is what
+                # becomes selectable by that metaschema's id
+                parent_ = validators.create(meta_schema=meta, validators=base.VALIDATORS, type_checker=base.TYPE_CHECKER, id_of=base.ID_OF)
+                C = validators.extend(parent_, validators={"vf-marker-%d" % n: (lambda validator, value, instance, schema: iter(()))}, version=vname)
+                rec.count("registrations_through_versioned_extend")
             elif op["how"] == "extend_then_replace_metaschema":
                 # the documented way to a dialect: extend() an existing class, give the result a metaschema of its own,
                 # register it - under ITS metaschema's id, the parent's registration staying what it was
@@ -455,7 +461,7 @@ def run(ctx):
     from vf.props.c18 import fork_run
     rng = ctx.rng
     for i in range(ctx.scale(8, 200)):
-        ops = [{"base": rng.choice(impl.DRAFTS), "how": rng.choice(["create_version", "validates", "extend_then_replace_metaschema", "subclass_overriding_metaschema"]), "hash": rng.random() < 0.5,
+        ops = [{"base": rng.choice(impl.DRAFTS), "how": rng.choice(["create_version", "validates", "extend_then_replace_metaschema", "subclass_overriding_metaschema", "extend_version"]), "hash": rng.random() < 0.5,
                 "reuse_name": rng.random() < 0.4, "odd_name": rng.choice([None, None, "", " ", "0", "False", "none", "draft vf", "\u00fc", "7"])}
                for _ in range(rng.choice([0, 1, 2, 3, 5]))]
         hseed = rng.randrange(10 ** 6)
